@@ -17,7 +17,7 @@
    [coherent]: before the resync every computed set stored in a principal document is the one the access
    views produce (that is property C03). *)
 From SG Require Import Base.Prelude C18.Resync C18.SetLemmas C18.ResyncProofs C18.ReplayProofs C18.AccessProofs C18.FinalProofs C18.Concurrent C18.HistoryProofs.
-From SG Require Import C18.Run C18.RunLemmas C18.RunInv C18.RunTheorems C18.RunTheorems2.
+From SG Require Import C18.Run C18.RunLemmas C18.RunInv C18.RunTheorems C18.RunTheorems2 C18.RunTheorems3.
 Open Scope N_scope.
 
 (* every live document's channel assignment is the one of the fresh database (and the trees coincide) *)
@@ -101,13 +101,17 @@ Theorem C18_history_coherent :
 Proof. exact hist_coherent. Qed.
 Print Assumptions C18_history_coherent.
 
-(* running resync again changes nothing: no document is written, docs_changed = 0, principals untouched.
-   Unconditional: any database, any function, either tree. *)
+(* running resync again changes nothing: no document is written, docs_changed = 0; the principals are untouched by
+   the code as found, and invalidated once more by the repaired invalidatePrincipals (sw_inval, Switch.always_inval_fixed:
+   it invalidates after EVERY completed run) -- which leaves every effective access set as it is (AccessProofs.
+   finish_invalidated, coherent_effective).  Unconditional: any database, any function, every tree.
+   (Restated when /repo bc044df made "principals untouched" false for the repaired code.) *)
 Theorem C18_resync_idempotent :
   forall (body : Type) (sync_new : body -> verdict) (db : list (doc body))
          (fixed : switches) (ifixed regen : bool) (alloc alloc' : list N) (ps : princs),
   let r := run sync_new fixed ifixed regen alloc db ps in
-  run sync_new fixed ifixed false alloc' (fst (fst r)) (snd r) = (fst (fst r), 0, snd r).
+  run sync_new fixed ifixed false alloc' (fst (fst r)) (snd r) =
+  (fst (fst r), 0, if sw_inval fixed then invalidate_all (snd r) else snd r).
 Proof. exact idempotent. Qed.
 Print Assumptions C18_resync_idempotent.
 
@@ -268,7 +272,8 @@ Print Assumptions C18_only_selected_collections_change.
 
 (* (2) every invalidateAllPrincipals call names ALL collections of the database -- a superset of those resynced (the
    code passes db.CollectionByID, not the selected collections: principals are never under-invalidated) -- and the end
-   of a run invalidates every principal exactly when the run's counter is positive *)
+   of a run invalidates every principal always (repaired code, sw_inval) / exactly when the run's counter is positive
+   (code as found) *)
 Theorem C18_invalidation_covers_all_collections :
   forall (body : Type) (empty : body) (col_of : N -> N) (syncs : N -> body -> verdict) (allcols : list N) (fixed : switches)
          (ops : list (rop body)) (st0 : rst body),
@@ -277,19 +282,22 @@ Proof. exact invalidation_covers_all_collections. Qed.
 Print Assumptions C18_invalidation_covers_all_collections.
 
 Theorem C18_finish_invalidates :
-  forall (body : Type) (allcols : list N) (st : rst body) (pseqs : list N),
+  forall (body : Type) (allcols : list N) (fixed : switches) (st : rst body) (pseqs : list N),
   r_state st = MRunning -> forallb (fun p : N * list event => null (snd p)) (r_queue st) = true ->
-  let st' := do_finish allcols st pseqs in
+  let st' := do_finish allcols fixed st pseqs in
   r_state st' = MCompleted /\
-  (0 < r_changed st -> r_ps st' = invalidate_all (r_ps st) /\ r_log st' = r_log st ++ [allcols] /\ r_dirty st' = false) /\
-  (r_changed st = 0 -> r_ps st' = r_ps st /\ r_log st' = r_log st /\ r_dirty st' = r_dirty st).
+  (sw_inval fixed = true \/ 0 < r_changed st ->
+     r_ps st' = invalidate_all (r_ps st) /\ r_log st' = r_log st ++ [allcols] /\ r_dirty st' = false) /\
+  (sw_inval fixed = false -> r_changed st = 0 -> r_ps st' = r_ps st /\ r_log st' = r_log st /\ r_dirty st' = r_dirty st).
 Proof. exact finish_invalidates. Qed.
 Print Assumptions C18_finish_invalidates.
 
-(* a run that is only ever stopped and resumed -- never `reset`, never crashed, always the same collection set -- has
-   invalidated all principals after its last resync write when it reports completed ([r_dirty]: a resync write has
-   happened since all principals were last invalidated).  With `reset` / a changed collection set / a crash that
-   loses the counter the statement is FALSE for the code as it is: C18_Refuted.resync_reset_after_interrupted_run_principals_stale *)
+(* whatever the tree: a run that is only ever stopped and resumed -- never `reset`, never crashed, always the same
+   collection set -- has invalidated all principals after its last resync write when it reports completed ([r_dirty]: a
+   resync write has happened since all principals were last invalidated).  With `reset` / a changed collection set / a
+   crash that loses the counter the statement is FALSE for the code as found (sw_inval = false):
+   C18_Refuted.resync_reset_after_interrupted_run_principals_stale; for the repaired code it holds for EVERY completed
+   run: C18_completed_run_invalidates below *)
 Theorem C18_single_id_run_invalidates :
   forall (body : Type) (empty : body) (col_of : N -> N) (syncs : N -> body -> verdict) (allcols : list N) (fixed : switches)
          (cs : list N) (ops : list (rop body)) (st0 : rst body),
@@ -298,6 +306,38 @@ Theorem C18_single_id_run_invalidates :
   r_dirty (rrun empty col_of syncs allcols fixed st0 ops) = false.
 Proof. exact single_id_run_invalidates. Qed.
 Print Assumptions C18_single_id_run_invalidates.
+
+(* with the repair of invalidatePrincipals (sw_inval = Switch.always_inval_fixed = true, /repo bc044df): EVERY run that
+   reports completed -- any run ids, resets, changed collection sets, crashes losing checkpoint and counter,
+   concurrent writes -- has invalidated all principals after its last resync write ... *)
+Theorem C18_completed_run_invalidates :
+  forall (body : Type) (empty : body) (col_of : N -> N) (syncs : N -> body -> verdict) (allcols : list N) (fixed : switches),
+  sw_inval fixed = true ->
+  forall (ops : list (rop body)) (st0 : rst body),
+  r_state st0 = MNone -> r_dirty st0 = false ->
+  r_state (rrun empty col_of syncs allcols fixed st0 ops) = MCompleted ->
+  r_dirty (rrun empty col_of syncs allcols fixed st0 ops) = false.
+Proof. exact completed_run_invalidates. Qed.
+Print Assumptions C18_completed_run_invalidates.
+
+(* ... and the principals' stored computed sets are coherent with the documents as they are (every stored set is
+   invalidated or what the access views give): after reload every user's roles and effective channels are those
+   recomputed from scratch from the resynced documents -- which by C18_resync_complete_after_success carry the new
+   function's grants (tombstones excepted: C18_stale_after_resync_only_untouched_tombstones).  Principals as in Resync.v:
+   the computed channels of ONE collection. *)
+Theorem C18_completed_run_principals_reflect_documents :
+  forall (body : Type) (empty : body) (col_of : N -> N) (syncs : N -> body -> verdict) (allcols : list N) (fixed : switches),
+  sw_inval fixed = true ->
+  forall (ops : list (rop body)) (st0 : rst body),
+  r_state st0 = MNone -> r_dirty st0 = false ->
+  let st := rrun empty col_of syncs allcols fixed st0 ops in
+  r_state st = MCompleted ->
+  coherent (r_docs st) (r_ps st) /\
+  forall u, In u (ps_users (r_ps st)) ->
+    seteq (user_rl (r_docs st) u) (compute_user_rl (r_docs st) u) /\
+    seteq (effective (r_docs st) (r_ps st) u) (effective (r_docs st) (invalidate_all (r_ps st)) (inval_user u)).
+Proof. exact completed_run_principals. Qed.
+Print Assumptions C18_completed_run_principals_reflect_documents.
 
 (* (3) [stale d]: the stored channels / access / roles of d differ (as sets) from what the current function computes for
    the body of its current revision.  After a completed run, under every schedule with concurrent writes, a stale
@@ -358,13 +398,13 @@ Definition rv_col (id : N) : N := id / 100.
 Definition rv_old (c : N) (b : N) : verdict := if b =? 0 then Ok [] [] [] else Ok [b] [(PU 1, b)] [(1, 7)].
 Definition rv_new (c : N) (b : N) : verdict := if b =? 0 then Ok [] [] [] else Ok [b + 10 + c] [(PU 1, b + 20); (PR 7, b + 30)] [].
 Definition rv_st0 : rst N :=
-  rrun 0 rv_col rv_old [0; 1] (mkSw true true) (rinit [] (mkPs [mkUser 1 [2] [] (Some [2]) (Some [])] [mkRole 7 [] (Some [])]) [])
+  rrun 0 rv_col rv_old [0; 1] (mkSw true true true) (rinit [] (mkPs [mkUser 1 [2] [] (Some [2]) (Some [])] [mkRole 7 [] (Some [])]) [])
        [OWrite (mkW 1 (1, 9) [] 3 false); OWrite (mkW 1 (1, 1) [] 4 false); OWrite (mkW 101 (1, 1) [] 5 false);
         OWrite (mkW 2 (1, 1) [] 6 false); OWrite (mkW 2 (2, 1) [(1, 1)] 0 true)].
 Definition rv_ops : list (rop N) :=
   [OStart false false []; OVisit 0 0; OVisit 1 0; OStop; OWrite (mkW 1 (2, 1) [(1, 9)] 8 false);
    OStart false false []; OVisit 0 0; OVisit 0 0; OVisit 1 0; OFinish []].
-Definition rv_st : rst N := rrun 0 rv_col rv_new [0; 1] (mkSw true true) rv_st0 rv_ops.
+Definition rv_st : rst N := rrun 0 rv_col rv_new [0; 1] (mkSw true true true) rv_st0 rv_ops.
 
 Example C18_run_nonvacuous :
   BInv rv_col rv_st0 /\ r_state rv_st0 = MNone /\ r_state rv_st = MCompleted /\ r_cols rv_st = [0; 1] /\
@@ -372,7 +412,7 @@ Example C18_run_nonvacuous :
   map (fun d => (d_id d, d_chans d, tombstoned d)) (r_docs rv_st) = [(1, [18], false); (101, [16], false); (2, [], true)] /\
   Forall (gentle N [0; 1] [0; 1]) rv_ops.
 Proof.
-  split; [apply (binv_run N 0 rv_col rv_old [0; 1] (mkSw true true)); apply binv_init; constructor|].
+  split; [apply (binv_run N 0 rv_col rv_old [0; 1] (mkSw true true true)); apply binv_init; constructor|].
   split; [reflexivity|]. split; [vm_compute; reflexivity|]. split; [vm_compute; reflexivity|].
   split; [vm_compute; reflexivity|]. split; [vm_compute; reflexivity|]. split; [vm_compute; reflexivity|].
   split; [vm_compute; reflexivity|]. repeat constructor.
@@ -389,7 +429,7 @@ Definition nv_ps : princs := warm (replay 0 nv_old [] nv_ws) (mkPs [mkUser 1 [2]
 Example C18_nonvacuous :
   accepts 0 nv_old nv_ws /\ accepts 0 nv_new nv_ws /\ tomb_agree 0 nv_old nv_new nv_ws /\
   coherent (replay 0 nv_old [] nv_ws) nv_ps /\
-  snd (resync_db nv_new (mkSw true true) false [] (replay 0 nv_old [] nv_ws)) = 2 /\
+  snd (resync_db nv_new (mkSw true true true) false [] (replay 0 nv_old [] nv_ws)) = 2 /\
   nlive (replay 0 nv_old [] nv_ws) = 2%nat /\
   map (@tombstoned N) (replay 0 nv_old [] nv_ws) = [false; true; false].
 Proof.
